@@ -44,13 +44,22 @@ use zeroize::Zeroize;
 /// Unlike many other heap-allocated big integer libraries, this type is not
 /// arbitrary precision and will wrap at its fixed-precision rather than
 /// automatically growing.
-#[allow(clippy::derived_hash_with_manual_eq)]
-#[derive(Clone, Hash)]
+#[derive(Clone)]
 pub struct BoxedUint {
     /// Boxed slice containing limbs.
     ///
     /// Stored from least significant to most significant.
     pub(crate) limbs: Box<[Limb]>,
+}
+
+impl core::hash::Hash for BoxedUint {
+    /// Equality zero-pads operands of different precision, so only the significant limbs are
+    /// hashed: values which compare equal hash equally.
+    fn hash<H: core::hash::Hasher>(&self, state: &mut H) {
+        let significant = self.limbs.len()
+            - self.limbs.iter().rev().take_while(|limb| limb.0 == 0).count();
+        self.limbs[..significant].hash(state);
+    }
 }
 
 impl BoxedUint {
